@@ -215,7 +215,9 @@ class BuiltinMixin(CallMixin):
         return [(s, v if isinstance(v, Raise) else (self.new_list(s, tuple(v)) if as_list else tuple(v))) for s, v in results]
 
     def call_next(self, st, ctx, args, line):
-        g = args[0]
+        g = self.need(st, ctx, args[0], line, "next-arg")
+        if isinstance(g, Ref) and META[g.oid].kind == "generator":
+            return self.gen_step(st, ctx, g, None, True, line)
         if isinstance(g, Ref) and META[g.oid].kind == "object":
             return self.call_method(st, ctx, g, "__next__", [], {}, line)
         raise EngineError(f"next() on {g!r}")
@@ -302,6 +304,14 @@ class BuiltinMixin(CallMixin):
                 st.set(self_v, "items", tuple(lst))
                 return [(st, None)]
             raise EngineError(f"list method {meth}")
+        if kind == "generator":
+            if meth == "send":
+                return self.gen_step(st, ctx, self_v, args[0], False, line)
+            if meth == "__next__":
+                return self.gen_step(st, ctx, self_v, None, True, line)
+            if meth == "close":
+                return self.gen_close(st, self_v)
+            raise EngineError(f"generator method {meth}")
         if kind == "exc":
             if meth in ("with_traceback", "add_note"):
                 return [(st, self_v)]
@@ -342,6 +352,11 @@ class BuiltinMixin(CallMixin):
     # ------------------------------------------------------------------ specification functions
     def spec_special(self, e: ast.Call, st: State, ctx: Ctx) -> Any:
         name = e.func.id
+        if name == "implies":
+            a = z3.simplify(ops.truth(st, self.eval1(e.args[0], st, ctx)))
+            if z3.is_false(a):
+                return z3.BoolVal(True)
+            return z3.Implies(a, ops.truth(st, self.eval1(e.args[1], st, ctx)))
         if name == "old":
             if ctx.old is None:
                 raise EngineError("old() outside a two-state clause")
@@ -444,6 +459,16 @@ class BuiltinMixin(CallMixin):
             if isinstance(b, View):
                 b = b.base
             return z3.BoolVal(isinstance(v, View) and isinstance(b, Ref) and v.base == b)
+        if name == "orempty":
+            v = args[0]
+            if isinstance(v, Opt):
+                return z3.If(v.isnone, smt.EMPTY, B(v.val))
+            return smt.EMPTY if v is None else B(v)
+        if name == "same_object":
+            x, y = args[0], args[1]
+            if isinstance(x, Opt) and isinstance(y, Opt):
+                return z3.Or(z3.And(x.isnone, y.isnone), z3.And(z3.Not(x.isnone), z3.Not(y.isnone), z3.BoolVal(x.val == y.val)))
+            return ops.identical(st, x, y)
         if name == "Resync":
             return smt.Resync(B(a[0]), a[1], B(a[2]))
         if name == "rk":
